@@ -39,11 +39,15 @@ def alphabet(rng, addrs):
             ("tc20", F.df17(rng.randrange(4), a, F.me_airpos(20, rng.randrange(4), 0, rng.randrange(4096), 0, 0, *gen.rand_cpr(rng)))),
             ("tc22", F.df17(rng.randrange(4), a, F.me_airpos(22, rng.randrange(4), 0, rng.randrange(4096), 0, 0, *gen.rand_cpr(rng)))),
             ("tc23", F.df17(rng.randrange(4), a, F.me_raw(23, rng.randrange(1 << 51)))),
+            # the Comm-B gate: capability 4 and 7 (lowest / highest value that opens it), and a reply that carries a callsign
+            ("df11c4", F.df11(4, a, 0)),
+            ("tc4c7", F.df17(7, a, F.me_ident(4, rng.randrange(8), F.callsign_codes("CAP%03d" % rng.randrange(1000))))),
+            ("df21b20", F.df21(0, 0, 0, rng.randrange(8192), F.bds20(F.callsign_codes("BDS%03d" % rng.randrange(1000))), a)),
             ("tc31", F.df17(rng.randrange(4), a, F.me_raw(31, rng.randrange(1 << 51)))),
         ]
     return out
 
-CLASS = {"tc1": "tc2", "tc5": "tc6", "tc8": "tc6", "tc9": "tc11e", "tc18": "tc11e", "tc20": "tc21", "tc22": "tc21", "tc23": "tc28"}
+CLASS = {"df11c4": "df11", "tc4c7": "tc4", "tc1": "tc2", "tc5": "tc6", "tc8": "tc6", "tc9": "tc11e", "tc18": "tc11e", "tc20": "tc21", "tc22": "tc21", "tc23": "tc28"}
 
 def carried(kind, spec, impl_frame):
     """what the specification says the frame carries: {param: value or None (no valid value)}"""
@@ -53,7 +57,7 @@ def carried(kind, spec, impl_frame):
         c["alt"] = None if spec["alt"] in ("-", "*") else spec["alt"]
     if kind == "tc6":
         c["alt"] = "BLANK"
-    if kind in ("df5", "df21"):
+    if kind in ("df5", "df21", "df21b20"):
         c["squawk"] = spec["squawk"]
     if kind in ("tc2", "tc4"):
         c["ais"] = spec["callsign"]; c["cat"] = spec["cat"]
@@ -71,8 +75,9 @@ def carried(kind, spec, impl_frame):
 
 class C11(PropBase):
     id = "C11"
-    lean_modules = ["SqModel.Props.C11"]
-    rule = ("sequences over an alphabet of 29 well-formed frame kinds (every supported format, both edges of every type-code class) x 2 aircraft (every supported format; altitude codes with Q=1), "
+    lean_modules = ["SqModel.Props.C11", "SqModel.Proofs.Dispatch"]
+    extractors = ["dispatch"]
+    rule = ("sequences over an alphabet of 32 well-formed frame kinds (every supported format, both edges of every type-code class, capability 4 and 7, a BDS 2,0 reply) x 2 aircraft (every supported format; altitude codes with Q=1), "
             "bounded-exhaustive for length 2 and sampled for length 3 (quick) / exhaustive length 3 (thorough), plus random sequences of "
             "50-300 frames with time steps; -U on/off; dump after every frame; compared with the model and with a reference fold "
             "('latest value of the last frame that carries the parameter, or blank/previous if it carried none') built from the Lean "
@@ -92,6 +97,9 @@ class C11(PropBase):
         ci = core.split_cases(impl)
         for si, seq in enumerate(seqs):
             ref = {}      # addr -> {param: latest}
+            caps = {}     # addr -> capability last reported by DF11 / DF17
+            bds_names = {k: alpha[k][1] for k in range(len(alpha))}
+            bds_names = {k: self.names.get(alpha[k][1], "") for k in range(len(alpha))}
             for j, k in enumerate(seq):
                 kind, fr = alpha[k]
                 addr = int(specs[k]["addr"])
@@ -108,8 +116,12 @@ class C11(PropBase):
                     created = addr not in ref
                     cur = ref.setdefault(addr, {})
                     car = carried(kind, specs[k], implf[k])
-                    if created and kind in ("df20", "df21"):
+                    if kind == "df21b20" and caps.get(addr, 0) >= 4:
+                        car["ais"] = '"' + bds_names[k] + '"'       # capability >= 4 recorded: the BDS 2,0 callsign is taken
+                    if created and kind in ("df20", "df21", "df21b20"):
                         car = {}          # the creating DF20/21 frame may contribute the address only
+                    if tag == "refeed" and fr[0] in "58" and int(fr[0:2], 16) >> 3 in (11, 17):
+                        caps[addr] = int(fr[0:2], 16) & 7          # CA of DF11 / DF17, in force from the next frame on
                     row = dump_rows.get(addr)
                     if row is None:
                         self.fail(rep, f"no row for {addr:06X} after its frame", {"ops": prefix_ops + gen.seg([fr]) + ["dump"]})
@@ -153,6 +165,12 @@ class C11(PropBase):
         implf = [core.kvs(l) for l in impl if l.startswith("frame")]
         if not driver_ok or len(specs) != len(alpha):
             raise core.Broken("spec lines unavailable for the alphabet", "")
+        self.names = {}
+        for kind, fr in alpha:
+            if kind == "df21b20":
+                mb = (int(fr, 16) >> 24) & ((1 << 56) - 1)
+                codes = [(mb >> (42 - 6 * i)) & 63 for i in range(8)]
+                self.names[fr] = "".join(chr(64 + c) if 1 <= c <= 26 else (chr(c) if 48 <= c <= 57 else "") for c in codes)
         n = len(alpha)
         pairs = list(itertools.product(range(n), repeat=2))
         triples = list(itertools.product(range(n), repeat=3))
@@ -167,6 +185,6 @@ class C11(PropBase):
             if not self.run_seqs(rep, run, rng, alpha, longs, u, driver_ok, specs, implf):
                 return
         rep.exhaustive.append(f"all {len(pairs)} sequences of length 2 over the {n}-frame alphabet, both paths")
-        rep.sample({"alphabet_kinds": [k for k, _ in alpha[:29]], "example_sequence": [alpha[i][0] for i in triples[0]]})
+        rep.sample({"alphabet_kinds": [k for k, _ in alpha[:32]], "example_sequence": [alpha[i][0] for i in triples[0]]})
 
 PROP = C11()
